@@ -103,6 +103,39 @@ Theorem C10_user_stop_in_backoff_v2_refuted :
 Proof. exact (conj stop_in_backoff_restarts_v2 force_in_backoff_restarts_v2). Qed.
 Print Assumptions C10_user_stop_in_backoff_v2_refuted.
 
+(* v2, as shipped: a force stop that lost the tomb's first-reason race (a worker's transient error was
+   recorded first) was restarted. Repaired (9382932): the force path marks the run as intentionally stopped,
+   so by C10_user_stop_never_restarted_v2 its cleanup can never take the recover arm. *)
+Theorem C10_force_stop_loses_race_v2_shipped_refuted :
+  refutes_stop (cfg_v2_shipped false) w_force_loses_race_v2 = true.
+Proof. exact force_loses_race_restarts_shipped_v2. Qed.
+Print Assumptions C10_force_stop_loses_race_v2_shipped_refuted.
+
+Theorem C10_force_stop_marks_intentional_v2 : forall c s id k i sw ch s' l,
+  c_engine c = V2 -> f_force_intent (c_fix c) = true ->
+  s_user s = Some (id, k, UAct i MForce sw) -> user_step c s ch = Some (s', l) ->
+  r_intent (s_runs s' i) = true
+  /\ forall rs rec, decide v2_arms rs (flags_of c s' (s_runs s' i)) rec <> Restart
+                    /\ enters_recovery v2_arms rs (flags_of c s' (s_runs s' i)) = false.
+Proof.
+  intros c s id k i sw ch s' l Hv Hf Hu H. unfold user_step in H. rewrite Hu in H.
+  destruct (get_run s i) as [r|] eqn:Er; [|discriminate].
+  assert (Hi : r_intent (s_runs s' i) = true).
+  { unfold is_v1 in H. rewrite Hv, Hf in H. simpl in H.
+    destruct sw; inversion H; subst; simpl; unfold fupd; rewrite Nat.eqb_refl;
+      destruct (r_phase r); reflexivity. }
+  split; [exact Hi|]. intros rs rec. apply (user_stop_generic v2_arms eq_refl).
+  unfold flags_of. rewrite Hv. simpl. exact Hi.
+Qed.
+Print Assumptions C10_force_stop_marks_intentional_v2.
+
+Example C10_force_stop_loses_race_v2_repaired :
+  match trace (cfg_v2 false) init w_force_loses_race_repaired_v2 with
+  | Some (ls, s) => negb (restart_after_stop ls) && status_eqb (s_status s) UserStopped && quiescent s
+  | None => false
+  end = true.
+Proof. exact force_loses_race_stops_repaired_v2. Qed.
+
 (* the guard that does hold in both engines: a recovery whose entry was replaced or removed
    does not restart *)
 Theorem C10_superseded_recovery_never_restarts : forall e shut,
@@ -152,11 +185,11 @@ Theorem C10_first_reason_decides_v2 : forall r rs f rec,
 Proof. exact (first_reason_decides_generic v2_arms). Qed.
 Print Assumptions C10_first_reason_decides_v2.
 
-(* v1 only: the tomb latch is read too early. The node goroutine's deferred nodesWg.Done() runs before
-   tomb.v2 records the node's error, so the cleanup goroutine can classify RNil for a run that died of a
-   failure: UserStopped, the error dropped, no recovery, no Degraded (v2 Kills before Done) *)
-Theorem C10_first_reason_decides_v1_refuted :
-  match trace (cfg_v1 false) init w_late_kill_v1 with
+(* v1, as shipped: the tomb latch was read too early. The node goroutine's deferred nodesWg.Done() ran before
+   tomb.v2 recorded the node's error, so the cleanup goroutine could classify RNil for a run that died of a
+   failure: UserStopped, the error dropped, no recovery, no Degraded. *)
+Theorem C10_first_reason_decides_v1_shipped_refuted :
+  match trace (cfg_v1_shipped false) init w_late_kill_v1 with
   | Some (ls, s) =>
       status_eqb (s_status s) UserStopped
       && negb (has_label (fun l => match l with LCall KStart 0 => false | LCall _ _ => true | _ => false end) ls)
@@ -165,7 +198,21 @@ Theorem C10_first_reason_decides_v1_refuted :
   | None => false
   end = true.
 Proof. exact failure_reported_as_user_stopped_v1. Qed.
-Print Assumptions C10_first_reason_decides_v1_refuted.
+Print Assumptions C10_first_reason_decides_v1_shipped_refuted.
+
+(* repaired (2f2ec4f: the node Kills the tomb before Done, as v2 does): in every state and whatever the
+   schedule chooses, the cleanup goroutine classifies the run by the tomb's first reason *)
+Theorem C10_first_reason_decides_at_cleanup : forall c s i ch,
+  (c_engine c = V2 \/ f_sync_kill (c_fix c) = true) ->
+  s_cleans s i = Some CWait -> clean_step c s i ch = clean_step c s i 0%nat.
+Proof.
+  intros c s i ch Hc Hpc. unfold clean_step. destruct (get_run s i) as [r|]; [|reflexivity]. rewrite Hpc.
+  assert (E : forall n, late_read c r n = false).
+  { intros n. unfold late_read, is_v1. destruct Hc as [Hc|Hc]; rewrite Hc; [reflexivity|].
+    destruct (c_engine c); reflexivity. }
+  rewrite (E ch), (E 0%nat). reflexivity.
+Qed.
+Print Assumptions C10_first_reason_decides_at_cleanup.
 
 (* ---------------- tie to the observed behaviour ---------------- *)
 (* the trace acceptor is sound: every event log of the real service that the check accepts is the observable
